@@ -28,7 +28,9 @@ var (
 	qiDest   account
 )
 
-func utxoHash(i int) common.Hash { return common.Hash(sha256.Sum256([]byte(fmt.Sprintf("verif-poolsim/utxo/%d", i)))) }
+func utxoHash(i int) common.Hash {
+	return common.Hash(sha256.Sum256([]byte(fmt.Sprintf("verif-poolsim/utxo/%d", i))))
+}
 
 func buildQi() {
 	qiDest = grindKey("qi-dest", true)
